@@ -33,7 +33,7 @@ func init() {
 		block: 8,
 		assumptions: []string{
 			"the source-level expander (inline.go) implements RFC 6020 7.12 / 7.15: clone the grouping's data definitions, apply refine and uses-augment, copy when/if-feature/status of the uses or augment onto every node it introduces",
-			"XPath expressions inside groupings carry no prefixes here (prefix scope is C15's subject); the evaluation context of an augment's when (RunAsParent) is compared as a flag only",
+			"XPath expressions inside groupings carry no prefixes here (prefix scope is C15's subject); the evaluation context of a when copied from a uses or an augment is asserted as the flag RunAsParent=true (RFC 6020 7.19.5), not by evaluating it",
 		},
 		minEvents: []string{"pairs_compiled", "uses_expanded", "refines_applied", "module_augments_applied", "uses_augments_applied", "dumps_compared", "clash_sets", "submodule_variants_compiled"},
 	}})
@@ -56,6 +56,7 @@ type c12Case struct {
 	ms      *yang.ModSet
 	clash   bool
 	inlined *yang.ModSet // hand-written inline definition (fixed cases); nil: use the source-level expander
+	inheritedWhens map[string]bool // fixed cases: the when expressions that stand on a uses / augment in the source
 }
 
 func c12Gen(seed int64, idx int) c12Case {
@@ -92,6 +93,30 @@ func c12Gen(seed int64, idx int) c12Case {
 		yang.SortSections(m)
 		c12Shuffle(r, m, true)
 	case 8:
+		if idx%40 >= 30 {
+			// context node of a when written on a uses, and on an augment inside that uses whose body
+			// holds a further uses: every introduced node carries the when, to be run on its parent
+			head := func() *yang.Stmt {
+				return yang.S("module", "fx-wh", yang.S("namespace", "urn:verif:fx-wh"), yang.S("prefix", "wh"))
+			}
+			str := func(n string, kids ...*yang.Stmt) *yang.Stmt {
+				return yang.S("leaf", n, append([]*yang.Stmt{yang.S("type", "string")}, kids...)...)
+			}
+			src := head()
+			src.Add(yang.S("container", "top", str("sel"),
+				yang.S("uses", "g", yang.S("when", "sel = 'a'"),
+					yang.S("augment", "c", yang.S("when", "sel2 = 'b'"), str("y"), yang.S("uses", "g2")))),
+				yang.S("grouping", "g", yang.S("container", "c", str("sel2")), str("lf")),
+				yang.S("grouping", "g2", str("z")))
+			inl := head()
+			inl.Add(yang.S("container", "top", str("sel"),
+				yang.S("container", "c", yang.S("when", "sel = 'a'"), str("sel2"), str("y", yang.S("when", "sel2 = 'b'")), str("z", yang.S("when", "sel2 = 'b'"))),
+				str("lf", yang.S("when", "sel = 'a'"))))
+			c.ms = &yang.ModSet{Mods: []*yang.Stmt{src}}
+			c.inlined = &yang.ModSet{Mods: []*yang.Stmt{inl}}
+			c.inheritedWhens = map[string]bool{"sel = 'a'": true, "sel2 = 'b'": true}
+			return c
+		}
 		if idx%40 >= 20 {
 			// two different groupings named x in disjoint scopes, one reached from the other: x (in a1) uses y,
 			// y contains its own x and uses it.  No grouping refers to itself.
@@ -274,7 +299,7 @@ func (p *c12) Run(tier string, seed int64, idx int) core.CaseResult {
 	}
 	inl, info := yang.Inline(c.ms)
 	if c.inlined != nil {
-		inl, info = c.inlined, &yang.Inliner{NUses: 3, NRefines: 1, NUsesAugments: 1}
+		inl, info = c.inlined, &yang.Inliner{NUses: 3, NRefines: 1, NUsesAugments: 1, InheritedWhens: c.inheritedWhens}
 		res.Ev("fixed_pairs_with_hand_written_inline_definition", 1)
 	}
 	if len(info.Errs) > 0 {
@@ -327,6 +352,7 @@ func (p *c12) Run(tier string, seed int64, idx int) core.CaseResult {
 			}
 		}
 	})
+	inlinedForm := false
 	norm := func(root *dump.DNode) string {
 		paths := map[*dump.DNode][]string{}
 		root.Walk(func(n *dump.DNode, path []string) { paths[n] = path })
@@ -336,14 +362,23 @@ func (p *c12) Run(tier string, seed int64, idx int) core.CaseResult {
 					return "ns=<augmenting module " + mod + ">"
 				}
 			}
-			if strings.HasPrefix(a, "when ") {
-				return runAsParentRe.ReplaceAllString(a, "runAsParent=*")
+			if strings.HasPrefix(a, "when ") && inlinedForm {
+				// a when that the inline form copied from a uses or an augment: its context node is the
+				// parent of the node that carries it, which the inline text cannot express
+				for e := range info.InheritedWhens {
+					if strings.HasPrefix(a, fmt.Sprintf("when expr=%q ", e)) {
+						res.Ev("whens_inherited_from_uses_or_augment", 1)
+						return runAsParentRe.ReplaceAllString(a, "runAsParent=true")
+					}
+				}
 			}
 			return a
 		})
 	}
 	res.Ev("dumps_compared", 1)
-	fd, id := norm(fr.DumpRoot), norm(ir.DumpRoot)
+	fd := norm(fr.DumpRoot)
+	inlinedForm = true
+	id := norm(ir.DumpRoot)
 	if fd != id {
 		res.Fail("C12/schema-differs-from-inline-definition", both, firstDiff(id, fd)+"\n(- inlined, + factored)")
 	}
